@@ -253,3 +253,21 @@ def walk_no_nested(n):
             if isinstance(c, (ast.FunctionDef, ast.Lambda)):
                 continue
             todo.append(c)
+
+
+def increment_amount(P, func, st, attr):
+    """n if statement st is `self.attr += n` or `self.attr = self.attr + n` (n a positive int constant), else None"""
+    if isinstance(st, ast.AugAssign) and isinstance(st.op, ast.Add) and isinstance(st.value, ast.Constant) and isinstance(st.value.value, int) \
+            and P.self_attr(st.target, func.self_name) == attr:
+        return st.value.value if st.value.value >= 1 else None
+    if isinstance(st, ast.Assign) and len(st.targets) == 1 and P.self_attr(st.targets[0], func.self_name) == attr and isinstance(st.value, ast.BinOp) \
+            and isinstance(st.value.op, ast.Add):
+        l, r = st.value.left, st.value.right
+        for a, b in ((l, r), (r, l)):
+            if P.self_attr(a, func.self_name) == attr and isinstance(b, ast.Constant) and isinstance(b.value, int) and b.value >= 1:
+                return b.value
+    return None
+
+
+def increments_of(P, func, attr):
+    return [st for st, k in assigns_to_attr(P, func, attr) if increment_amount(P, func, st, attr) is not None]
